@@ -271,6 +271,16 @@ pub fn step_leaf() -> BoxedStrategy<Step> {
     .boxed()
 }
 
+/// leaf steps that can never validate a TCP flow (no data segments with a good ack)
+pub fn step_noise() -> BoxedStrategy<Step> {
+    step_leaf()
+        .prop_map(|s| match s {
+            Step::Seg { flow, flags, seq, pay, doff, opt_words, .. } => Step::Seg { flow, flags, ack: AckMode::Cookie, seq, pay, doff, opt_words },
+            other => other,
+        })
+        .boxed()
+}
+
 pub fn step() -> BoxedStrategy<Step> {
     prop_oneof![
         4 => step_leaf(),
